@@ -128,3 +128,22 @@ Theorem C12_http_time_shift : forall (uuid_of : Params.str -> option nat) (dl : 
 Proof. exact HttpProofs.http_time_shift. Qed.
 Print Assumptions C12_http_time_shift.
 
+
+(* tie to the source, the LOOPS that fill the two hour tables (ConnectionSet::generateConnectionsIteratorCache, read AS IT IS
+   NOW by tools/gen_scenario.py, gen/Scenario.v: gen_index_code): the start hour, per connection the `while` with its
+   comparison of the departure / arrival time with currentHour * 3600 and, in the reverse table, the bound currentHour > BEGIN,
+   push_back / insert at begin, ++ / --, and the fill loops up to END / down to BEGIN storing the end iterator.  Run by
+   the interpreter of ScenCode.v (iterators are positions) they produce Data.fwd_index / rev_index, for ALL lists *)
+Require TrV.ScenCode TrV.gen.Scenario.
+From TrV Require Proofs.IndexTie.
+Module SCN.
+  Import TrV.ScenCode TrV.Proofs.IndexTie.
+  Theorem C12_index_tables_are_code : forall fwd rev,
+    run_index GS.gen_index_code fwd rev = (fwd_index fwd, rev_index rev).
+  Proof. exact index_tables_are_code. Qed.
+  Print Assumptions C12_index_tables_are_code.
+  Theorem C12_connset_tables_are_code : forall trips fwd rev,
+    (cs_fidx (mk_connset trips fwd rev), cs_ridx (mk_connset trips fwd rev)) = run_index GS.gen_index_code fwd rev.
+  Proof. exact connset_tables_are_code. Qed.
+  Print Assumptions C12_connset_tables_are_code.
+End SCN.
